@@ -21,6 +21,8 @@ int main(int argc, char **argv) {
     e->cbs.onData(sid, iora::core::BufferView(c.data(), c.size()), std::chrono::steady_clock::now());
     printf("onData(%u bytes)\n", (unsigned)len);
   }
+  bool closed = in.count("CLOSE") && replay_io::u64(in["CLOSE"]);
+  if (closed) { e->cbs.onClose(sid, TransportErrorInfo{TransportError::PeerClosed, "peer closed"}); printf("onClose\n"); }
   std::vector<uint8_t> got; TransportError err = TransportError::None;
   for (;;) {
     uint8_t buf[64]; size_t len = sizeof buf;
@@ -35,6 +37,7 @@ int main(int argc, char **argv) {
       char m[400]; snprintf(m, sizeof m, "C03: byte %zu handed to the synchronous reader is stream byte with value %02x, expected %02x: a gap BEFORE any error was reported "
                             "(bytes dropped by the overflow were skipped silently; a later chunk was appended after overflow was set)", k, got[k], k < stream.size() ? stream[k] : 0);
       replay_io::fail(m); }
+  if (closed && got.size() == stream.size() && err != TransportError::PeerClosed) replay_io::fail("C03: everything that arrived before the close must be returned, then PeerClosed");
   if (got.size() < stream.size() && err != TransportError::BufferOverflow) replay_io::fail("C03: bytes were dropped but the reader did not get BufferOverflow");
   replay_io::ok("reader obtained a gap-free prefix of the stream, followed by the right error");
   return 0;
